@@ -39,4 +39,6 @@ distinct = distinct generated history";
         render_history,
         check_history,
     );
+    e.fuzz_corpus("c01_history");
+    e.fuzz_campaign("c01_history", 300000);
 }
